@@ -23,7 +23,7 @@ H1 == {<<a>> : a \in Op \cup OpC \cup RelocOp}
 H2 == {<<a, b>> : a \in Op, b \in Op} \cup {<<a, b>> : a \in OpC, b \in OpC \cup RelocOp}
 \* length 3: the first two calls in the same process on different programs, then any third call
 Op3 == IF Quick THEN {o \in Op : o.prog \in Core \/ o.target = "bash"} ELSE Op
-H3 == {<<a, b, c>> : a \in {o \in Op3 : o.mode = "same"}, b \in {o \in Op3 : o.mode \in {"same", "newobj"}}, c \in (IF Quick THEN {o \in Op3 : o.mode = "same"} ELSE {o \in Op : o.prog \in Core \/ o.target = "bash"})}
+H3 == {<<a, b, c>> : a \in {o \in Op3 : o.mode = "same"}, b \in {o \in Op3 : o.mode \in {"same", "newobj"}}, c \in {o \in Op3 : o.mode = "same" /\ (Quick \/ o.prog \in Core \/ o.target = "bash")}}
 \* long histories in one process: the first program again after N other, distinct programs (gen1 ... genN are written by the harness)
 LongN == IF Quick THEN {20, 300} ELSE {20, 100, 255, 256, 257, 300, 600}
 LongHist == {[id |-> "C14/long/" \o first \o "." \o tg \o "." \o md \o "/" \o ToString(n),
